@@ -71,13 +71,16 @@ def check(pid, tier, seed):
         return R.finish()
     d = C.workdir(pid)
     runs = [(seed, 4000, 40)] if tier == "quick" else [(seed, 20000, 40), (seed + 1, 20000, 25), (seed + 2, 10000, 80), (seed + 3, 10000, 150)]
-    total, bad, shapes, samples = 0, [], set(), []
+    total, bad, shapes, samples, skipped = 0, [], set(), [], 0
     for s, n, dur in runs:
         out = os.path.join(d, "timer_out.txt")
         q = C.run([C.HARNESS, "timerstress", "-seed", str(s), "-n", str(n), "-dur", str(dur), "-out", out], cwd=d, timeout=3600)
         if q.returncode != 0:
             raise RuntimeError("timerstress failed: " + (q.stdout or "")[-2000:])
         for line in open(out):
+            if line.startswith("SKIP"):
+                skipped += 1
+                continue
             total += 1
             parts = line.split()
             ops = parts[2][4:]
@@ -114,6 +117,7 @@ def check(pid, tier, seed):
         "distinct_nontrivial": len([s for s in shapes if ";" in s]),
         "rule": "one evaluation = one arm/stop/sleep sequence (1-5 ops) on a real ShipConnection, 256 connections concurrently; distinct = distinct operation shapes with at least two operations",
         "samples": samples,
+        "trials_discarded_because_a_timer_was_not_ended_well_before_expiry": skipped,
         "facts_changed": changed,
         "timeouts_fired_in_handshake_traces": ptimeouts,
         "timeouts_by_phase": pby,
